@@ -33,7 +33,7 @@ EXPLANATION = (
 )
 
 MANIFEST = {
-    "technique": "static analysis: polarity (qualifier) typing of the MIN/MAX flow, provenance (dependence) analysis of every link of the range chain, who-may-write of the recorded range",
+    "technique": "static analysis: polarity (qualifier) typing of the MIN/MAX flow, provenance (dependence) analysis of every link of the range chain by parameter binding, 4-case trace simulation of the card written by Image.save, who-may-write of the recorded range, unconditional root propagation (path condition)",
     "text": "Decides link by link that ranges propagate leaf -> parent -> root -> WTML with matching polarity and the right provenance, on all paths; numeric rounding is not decided.",
     "note": "Trusted: numpy nanmin/nanmax/isfinite, astropy header access. Not decided: float32 rounding of the recorded values.",
 }
